@@ -719,6 +719,17 @@ def shrink_candidates(doc):
                             yield dict(doc, ops=ops[:i] + [dict(op, **{k: {a: b for a, b in op[k].items() if a != key}})] + ops[i + 1 :])
             if op.get("use_model"):
                 yield dict(doc, ops=ops[:i] + [dict(op, use_model=False)] + ops[i + 1 :])
+    # simpler conditionals
+    from sim.models.evalformula import simpler_conditionals
+
+    for i, op in enumerate(ops):
+        if op["op"] == "new_model":
+            for j, (idx_, t) in enumerate(op["conds"]):
+                for t2 in simpler_conditionals(t, limit=3):
+                    yield dict(doc, ops=ops[:i] + [dict(op, conds=op["conds"][:j] + [[idx_, t2]] + op["conds"][j + 1 :])] + ops[i + 1 :])
+        elif op["op"] == "add":
+            for t2 in simpler_conditionals(op["cond"], limit=3):
+                yield dict(doc, ops=ops[:i] + [dict(op, cond=t2)] + ops[i + 1 :])
     # simpler priors
     for pi, p in enumerate(doc["priors"]):
         if p["kind"] != "zero":
